@@ -4,7 +4,10 @@
 
 use super::problems::*;
 use crate::rng::Gen;
-use mahf::components::{archive, boundary, initialization, mutation, recombination, replacement, selection};
+use mahf::components::{archive, boundary, initialization, mapping, mutation, recombination, replacement, selection, swarm, Block};
+use mahf::lens::ValueOf;
+use mahf::state::common::Iterations;
+use mahf::Component;
 use mahf::conditions::{Condition, LessThanN};
 use mahf::heuristics::*;
 use mahf::problems::{LimitedVectorProblem, TravellingSalespersonProblem, VectorProblem};
@@ -135,6 +138,10 @@ pub enum TFault {
     StepFail(u32),
     /// the `at`-th word drawn from the root generator is forced to 0 or u64::MAX
     ExtremeDraw { at: u64, max: bool },
+    /// (PSO) a foreign component at the end of pass `at_iter` removes (or duplicates) one particle
+    /// of the population without touching velocities and personal bests: the next swarm update
+    /// has to refuse
+    SwarmResize { at_iter: u32, grow: bool, first: bool },
 }
 
 #[derive(Clone, Debug, PartialEq, Serialize, Deserialize)]
@@ -212,6 +219,37 @@ pub fn termination<P: Problem>(term: Term) -> (Box<dyn Condition<P>>, Arc<Atomic
 }
 
 // ---------------------------------------------------------------------------------------------
+// fault component: resizes the population behind the swarm components' back
+
+#[derive(Clone, Serialize)]
+pub struct SwarmResize {
+    pub at_iter: u32,
+    pub grow: bool,
+    pub first: bool,
+}
+
+impl<P: Problem> Component<P> for SwarmResize {
+    fn execute(&self, _problem: &P, state: &mut State<P>) -> ExecResult<()> {
+        if state.try_get_value::<Iterations>().ok() != Some(self.at_iter) {
+            return Ok(());
+        }
+        let mut pops = state.populations_mut();
+        let cur = pops.current_mut();
+        if cur.is_empty() {
+            return Ok(());
+        }
+        let i = if self.first { 0 } else { cur.len() - 1 };
+        if self.grow {
+            let x = cur[i].clone();
+            cur.insert(i, x);
+        } else {
+            cur.remove(i);
+        }
+        Ok(())
+    }
+}
+
+// ---------------------------------------------------------------------------------------------
 // building the real configurations
 
 pub fn build_real<P>(c: &TCase, cond: Box<dyn Condition<P>>) -> ExecResult<Configuration<P>>
@@ -237,6 +275,31 @@ where
             de::RealProblemParameters { population_size: c.pu("population_size"), y: c.pu("y"), f: c.p("f"), pc: c.p("pc") },
             cond,
         ),
+        Kind::Pso if matches!(c.fault, TFault::SwarmResize { .. }) => {
+            // real_pso spelled out, with the fault component at the end of the state update
+            let TFault::SwarmResize { at_iter, grow, first } = c.fault else { unreachable!() };
+            let (sw, ew, vmax) = (c.p("start_weight"), c.p("end_weight"), c.p("v_max"));
+            Ok(Configuration::builder()
+                .do_(initialization::RandomSpread::new(c.pu("num_particles")))
+                .evaluate()
+                .update_best_individual()
+                .do_(pso::pso::<P, Global>(
+                    pso::Parameters {
+                        particle_init: swarm::pso::ParticleSwarmInit::new(vmax)?,
+                        particle_update: swarm::pso::ParticleVelocitiesUpdate::new(sw, c.p("c_one"), c.p("c_two"), vmax)?,
+                        constraints: boundary::Saturation::new(),
+                        inertia_weight_update: Some(mapping::Linear::new(
+                            sw,
+                            ew,
+                            ValueOf::<mahf::state::common::Progress<ValueOf<Iterations>>>::new(),
+                            ValueOf::<swarm::pso::InertiaWeight<swarm::pso::ParticleVelocitiesUpdate>>::new(),
+                        )),
+                        state_update: Block::new(vec![swarm::pso::ParticleSwarmUpdate::new(), Box::new(SwarmResize { at_iter, grow, first })]),
+                    },
+                    cond,
+                ))
+                .build())
+        }
         Kind::Pso => pso::real_pso(
             pso::RealProblemParameters {
                 num_particles: c.pu("num_particles"),
